@@ -22,7 +22,13 @@ GROUPS = [f"g{i}" for i in range(4)]
 ints = st.integers(min_value=-10**6, max_value=10**6)
 floats = st.builds(lambda a, b: float(f"{a}.{b:06d}") if a >= 0 else -float(f"{-a}.{b:06d}"),
                    st.integers(-9999, 9999), st.integers(0, 999999))
-strs = st.text(alphabet="abcxyz019_", min_size=0, max_size=6).map(lambda s: "s" + s)
+# strings: mostly plain identifiers; one in five carries characters that delimited text has to quote (double quote, the
+# separator, a line feed, comma, ...).  A lone carriage return is left out: pandas' writer does not quote it.
+strs = st.one_of(
+    st.text(alphabet="abcxyz019_", min_size=0, max_size=6), st.text(alphabet="abcxyz019_", min_size=0, max_size=6),
+    st.text(alphabet="abcxyz019_", min_size=0, max_size=6), st.text(alphabet="abcxyz019_", min_size=0, max_size=6),
+    st.text(alphabet="ab01_\"'\t\n ,#|\\;:", min_size=1, max_size=6),
+).map(lambda s: "s" + s)
 bools = st.booleans()
 cell = st.tuples(ints, floats, strs, bools)
 CELL_IDX = {"int": 0, "float": 1, "str": 2, "bool": 3}
@@ -34,10 +40,10 @@ def project(rows, types):
 
 PROBES_BY = {
     "C13": ["ops", "reads", "chunked_reads", "multi_chunk_reads", "appends", "finalized", "buffer_flushes", "caller_reused_its_object"],
-    "C14": ["ops", "merges", "tie_merges", "sortedness_faults"],
+    "C14": ["ops", "merges", "tie_merges", "sortedness_faults", "abandoned_merges"],
 }
 
-STATE = {"failed": None, "examples": 0, "digests": set(), "stats": Counter(), "kinds": set(), "max_ops": 0}
+STATE = {"failed": None, "examples": 0, "digests": set(), "stats": Counter(), "kinds": set(), "max_ops": 0, "process_ops": []}
 
 
 def make_machine(which, base_dir):
@@ -48,14 +54,21 @@ def make_machine(which, base_dir):
             self.world = TabWorld(self.wd)
             self.ops = []
             STATE["examples"] += 1
+            STATE["process_ops"].append(["new_world", {}])
 
         def _do(self, name, **args):
             op = [name, args]
             self.ops.append(op)
+            STATE["process_ops"].append(op)
             try:
                 self.world.apply(op)
             except BaseException as exc:  # noqa: BLE001
-                STATE["failed"] = {"ops": [list(o) for o in self.ops], "exc": exc}
+                if STATE["failed"] is None or not STATE["failed"].get("first_kept"):
+                    # the first failure of the process is kept together with everything the process did before it
+                    STATE["failed"] = {"ops": [list(o) for o in self.ops], "exc": exc, "first_kept": True, "first_exc": exc,
+                                       "process_ops": [list(o) for o in STATE["process_ops"]]}
+                else:
+                    STATE["failed"].update(ops=[list(o) for o in self.ops], exc=exc)
                 raise
 
         def teardown(self):
@@ -156,17 +169,19 @@ def make_machine(which, base_dir):
                 return sorted({k.rsplit("_", 1)[0] for k, t in self.world.tables.items() if t["kind"] == "run"})
 
             @precondition(lambda self: any(t["kind"] == "run" for t in self.world.tables.values()))
-            @rule(data=st.data(), merge_chunk=st.sampled_from([1, 2, 3, 5, 8, 13, 1000]))
-            def merge_sort(self, data, merge_chunk):
-                self._do("merge_sort", group=data.draw(st.sampled_from(self._groups())), merge_chunk=merge_chunk)
+            @rule(data=st.data(), merge_chunk=st.sampled_from([1, 2, 3, 5, 8, 13, 1000]),
+                  take=st.sampled_from([None, None, None, 0, 1, 2, 5]))
+            def merge_sort(self, data, merge_chunk, take):
+                self._do("merge_sort", group=data.draw(st.sampled_from(self._groups())), merge_chunk=merge_chunk, take=take)
 
             @precondition(lambda self: any(t["kind"] == "run" for t in self.world.tables.values()))
             @rule(data=st.data(), mode=st.sampled_from(["read", "chunked", "rows", "merge_readers"]),
                   row_type=st.sampled_from(["DataFrame", "Dicts", "Records"]),
-                  reader_chunk=st.sampled_from([1, 2, 3, 5, 8, 1000]), out_chunk=st.integers(1, 12))
-            def merge_readers(self, data, mode, row_type, reader_chunk, out_chunk):
+                  reader_chunk=st.sampled_from([1, 2, 3, 5, 8, 1000]), out_chunk=st.integers(1, 12),
+                  take=st.sampled_from([None, None, None, 1, 3]))
+            def merge_readers(self, data, mode, row_type, reader_chunk, out_chunk, take):
                 self._do("merge_readers", group=data.draw(st.sampled_from(self._groups())), mode=mode, row_type=row_type,
-                         reader_chunk=reader_chunk, out_chunk=out_chunk)
+                         reader_chunk=reader_chunk, out_chunk=out_chunk, take=take if mode == "rows" else None)
 
             @precondition(lambda self: any(t["kind"] == "run" for t in self.world.tables.values()))
             @rule(data=st.data(), run_index=st.integers(0, 7), i=st.integers(0, 39), j=st.integers(0, 39),
@@ -207,7 +222,7 @@ def run_scenario(scn, workdir, which):
             return violation_from(exc, ops)
         return out
 
-    STATE.update(failed=None, examples=0, digests=set(), stats=Counter(), kinds=set(), max_ops=0)
+    STATE.update(failed=None, examples=0, digests=set(), stats=Counter(), kinds=set(), max_ops=0, process_ops=[])
     Machine = make_machine(which, base)
     cfg = settings(max_examples=scn["max_examples"], stateful_step_count=scn["steps"], database=None, deadline=None,
                    report_multiple_bugs=False, suppress_health_check=list(HealthCheck),
@@ -225,7 +240,14 @@ def run_scenario(scn, workdir, which):
             run_ops(ops, os.path.join(base, "confirm"))
         except BaseException as exc2:  # noqa: BLE001
             return violation_from(exc2, ops)
-        raise RuntimeError(f"failure inside Hypothesis did not reproduce from the recorded ops: {exc!r}")
+        # The failing history alone is fine: what failed depends on what this interpreter did before (state kept in
+        # the code under test between independent histories).  The replay is then the whole process history up to the
+        # first failure; the driver confirms it in a fresh process and shrinks it (whole histories first).
+        first_exc = failed["first_exc"]
+        hist = failed["process_ops"]
+        v = violation_from(first_exc, hist)
+        v["message"] += f"  [only after {sum(1 for o in hist if o[0] == 'new_world') - 1} earlier, independent histories in the same process]"
+        return v
     stats = STATE["stats"]
     out.update(
         evaluations=STATE["examples"],
@@ -243,6 +265,15 @@ def shrink_candidates(scn):
     ops = scn.get("replay_ops")
     if not ops:
         return
+    marks = [i for i, o in enumerate(ops) if o[0] == "new_world"]
+    if len(marks) > 1:
+        # a process history: drop whole earlier histories first (keep the last k, then drop single ones)
+        k = 1
+        while k < len(marks):
+            c = clone(scn); c["replay_ops"] = ops[marks[-k]:]; yield c
+            k *= 2
+        for a, b in zip(marks, marks[1:]):
+            c = clone(scn); c["replay_ops"] = ops[:a] + ops[b:]; yield c
     for i in range(len(ops) - 1, -1, -1):
         c = clone(scn)
         del c["replay_ops"][i]
